@@ -304,55 +304,125 @@ def check_direct(rep, prog, m):
 
 
 def check_admix(rep, prog, m):
+    """what _from_phi_<D>D_admix_props stores into entry (i_1..i_D) of the result (abstract execution with a symbolic D x D matrix of
+    admixture proportions, loops run once with symbolic indices, tables filled under symbolic keys followed): the nested trapezoid
+    integral, last axis first, of phi times one binomial factor per axis, the factor of axis a at the admixed frequency
+    sum_c P[a][c] * grid_c with every grid on its own axis.  Independent of temporaries, caches and comprehension / loop form."""
+    from sa import miniexec as mx
+    from sa import alpha as _alpha
     rel = m.rel
+    known = _alpha.load_table().get('__params__', {}).get(rel)
+    known = set(known) if known is not None else None
     for D in (2, 3, 4):
         q = 'Spectrum._from_phi_%dD_admix_props' % D
         fn = prog.func(SM, q)
         rep.saw_function(rel + ':' + q)
-        sing = single_assignments(fn)
-        for r in range(D):
-            name = AX[r] + 'admix'
-            v = sing.get(name)
-            ok = False
-            if v is not None:
-                def index_hook(tr, e):
-                    b = ast.unparse(e.value)
-                    if b in G:
-                        comps = e.slice.elts if isinstance(e.slice, ast.Tuple) else [e.slice]
-                        pos = [i for i, c in enumerate(comps) if isinstance(c, ast.Slice)]
-                        if pos == [G.index(b)] and len(comps) == D:
-                            return Rat.atom('GRID%d' % G.index(b))
-                        return Rat.atom('BAD')
-                    if b.startswith('admix_props'):
-                        return Rat.atom('P_%s_%s' % (ast.unparse(e.value.slice) if isinstance(e.value, ast.Subscript) else '?', ast.unparse(e.slice)))
-                    return None
+        params = positional_params(fn)
+        for mode in ('matrix', 'default'):
+            P = tuple(tuple(mx.Sym('P_%d_%d' % (r, c)) for c in range(D)) for r in range(D)) if mode == 'matrix' else None
+            args = {p_: mx.Sym(p_) for p_ in params}
+            args['admix_props'] = P
+            it = mx.Interp(prog, m, known_functions=known, symbolic_loops=True)
+            tag = q if mode == 'matrix' else q + ' (default proportions)'
+            try:
                 try:
-                    got = Translator({}, index_hook=index_hook).tr(v)
-                    ref = Rat.const(0)
+                    allp = it.run(fn, args)
+                except mx.Undecidable:
+                    if mode == 'default':
+                        # (the two-population variant has no default: it indexes None; the dispatcher only calls it with proportions)
+                        rep.note('%s: admix_props=None is not handled (siblings default to the identity); not reachable through from_phi' % q)
+                        continue
+                    raise
+                paths = [p_ for p_ in allp if p_[0][0] == 'return']
+                if mode == 'default' and not paths:
+                    rep.note('%s: admix_props=None raises (siblings default to the identity); not reachable through from_phi' % q)
+                    continue
+                if len(paths) != 1:
+                    raise mx.Undecidable('%d returning paths' % len(paths))
+                outcome, events, _dec = paths[0]
+                sp = mx.call_of(outcome[1], 'Spectrum')
+                if sp is None or not sp[0]:
+                    raise mx.Undecidable('returns %s' % mx.show(outcome[1])[:40])
+                data = sp[0][0]
+                zc = mx.call_of(data, 'zeros')
+                stores = [e for e in events if e[0] == 'setitem' and mx.show(e[4]) == mx.show(data)]
+                if zc is None or len(stores) != 1:
+                    raise mx.Undecidable('%d stores into the result' % len(stores))
+                key = stores[0][2]
+                key = list(key) if isinstance(key, tuple) else [key]
+                ivars = [mx.show(k_) for k_ in key]
+                if len(ivars) != D or not all(re.fullmatch(r'[A-Za-z_]\w*', v_) for v_ in ivars) or len(set(ivars)) != D:
+                    raise mx.Undecidable('store index %s' % ivars)
+                ranges = {e[2]: e[3] for e in events if e[0] == 'loop' and len(e) > 3}
+
+                def leaf(x, D=D):
+                    if isinstance(x, mx.Sym) and not x.struct and re.fullmatch(r'[A-Za-z_]\w*', x.text):
+                        return Rat.atom(x.text)
+                    if isinstance(x, mx.Sym) and x.struct and x.struct[0] == 'index' and mx.show(x.struct[1]) in G:
+                        b = mx.show(x.struct[1])
+                        comps = x.struct[2] if isinstance(x.struct[2], tuple) else (x.struct[2],)
+                        pos = [i_ for i_, c_ in enumerate(comps) if mx.is_full_slice(c_)]
+                        if pos == [G.index(b)] and len(comps) == D and all(mx.is_newaxis(c_) for i_, c_ in enumerate(comps) if i_ != pos[0]):
+                            return Rat.atom('GRID%d' % G.index(b))
+                        return Rat.atom('BADGRID')
+                    if isinstance(x, mx.Sym) and x.struct and x.struct[0] == 'binop' and x.struct[1] == '**':
+                        return Rat.atom('POW[%s|%s]' % (mx.to_rat(x.struct[2], leaf).canon(), mx.to_rat(x.struct[3], leaf).canon()))
+                    c_ = mx.call_of(x, 'comb')
+                    if c_ is not None and len(c_[0]) == 2:
+                        return Rat.atom('COMB[%s|%s]' % (mx.to_rat(c_[0][0], leaf).canon(), mx.to_rat(c_[0][1], leaf).canon()))
+                    return None
+                # the chain of integrals, outermost first
+                v = stores[0][3]
+                dxs = []
+                while mx.call_of(v, 'trapz') is not None:
+                    c_ = mx.call_of(v, 'trapz')
+                    if len(c_[0]) != 1 or set(c_[1]) - {'dx', 'axis'} or c_[1].get('axis', -1) != -1:
+                        raise mx.Undecidable('integration call %s' % mx.show(v)[:60])
+                    dxs.append(c_[1].get('dx'))
+                    v = c_[0][0]
+                okdx = len(dxs) == D
+                for a, d_ in enumerate(dxs):
+                    dc = mx.call_of(d_, 'diff')
+                    okdx = okdx and dc is not None and len(dc[0]) == 1 and mx.show(dc[0][0]) == G[a]
+                shape = zc[0][0] if zc[0] else zc[1].get('shape')
+                okshape = isinstance(shape, (tuple, list)) and len(shape) == D and all(mx.to_rat(s_, leaf).equals(Rat.atom(NS[a]) + Rat.const(1)) for a, s_ in enumerate(shape))
+                okr = True
+                for a, v_ in enumerate(ivars):
+                    rg = mx.call_of(ranges.get(v_), 'range') if ranges.get(v_) is not None else None
+                    if rg is None:
+                        okr = False
+                        continue
+                    lo, hi = (0, rg[0][0]) if len(rg[0]) == 1 else (rg[0][0], rg[0][1])
+                    okr = okr and len(rg[0]) <= 2 and lo == 0 and mx.to_rat(hi, leaf).equals(Rat.atom(NS[a]) + Rat.const(1))
+                got = mx.to_rat(v, leaf)
+                ref = Rat.atom('phi')
+                freq_ok = []
+                for a in range(D):
+                    adm = Rat.const(0)
                     for c in range(D):
-                        ref = ref + Rat.atom('P_%d_%d' % (r, c)) * Rat.atom('GRID%d' % c)
-                    ok = got.equals(ref)
-                except AlgebraError:
-                    ok = False
-            rep.ob('R-ALG', '%s %s' % (q, name), ok, ast.unparse(v)[:120] if v is not None else 'not found', rel, fn.lineno,
-                   what='frequency in sampled population %d = sum_c admix_props[%d][c] * grid_c (grid c on axis c)' % (r + 1, r))
-        # factors use the admixed frequency of their own axis
-        for a in range(D):
-            nd = [n for n in ast.walk(fn) if isinstance(n, ast.Assign) and ast.unparse(n.targets[0]) == 'factor' + AX[a] and isinstance(n.value, ast.BinOp)]
-            lv = None
-            p = nd[0] if nd else None
-            while p is not None and lv is None:
-                p = getattr(p, '_parent', None)
-                if isinstance(p, ast.For):
-                    lv = p.target.id
-            ok = bool(nd) and lv is not None and binom_factor_ok(nd[0].value, NS[a], lv, AX[a] + 'admix')
-            rep.ob('R-ALG', '%s factor axis %d' % (q, a + 1), ok, ast.unparse(nd[0])[:100] if nd else 'not found', rel, nd[0].lineno if nd else fn.lineno, what='binomial factor of axis %d uses its admixed frequency' % (a + 1))
-        st = [n for n in ast.walk(fn) if isinstance(n, ast.Assign) and isinstance(n.targets[0], ast.Subscript) and ast.unparse(n.targets[0].value) == 'data']
-        idx = ast.unparse(st[0].targets[0].slice).replace('(', '').replace(')', '').replace(' ', '') if st else ''
-        rep.ob('R-IDX', '%s store' % q, idx == ','.join(IV[:D]), 'data[%s]' % idx, rel, st[0].lineno if st else fn.lineno, what='entry stored at data[i_1..i_D]')
-        tz = sorted((n.lineno, {k.arg: ast.unparse(k.value) for k in n.keywords}.get('dx')) for n in ast.walk(fn) if isinstance(n, ast.Call) and dotted(n.func) == 'trapz')
-        want = ['d' + AX[a] for a in range(D - 1, -1, -1)]
-        rep.ob('R-IDX', '%s integration order' % q, [t[1] for t in tz] == want, 'spacings %s; expected %s' % ([t[1] for t in tz], want), rel, fn.lineno, what='axes integrated from the last to the first')
+                        adm = adm + (Rat.atom('P_%d_%d' % (a, c)) if mode == 'matrix' else Rat.const(1 if a == c else 0)) * Rat.atom('GRID%d' % c)
+                    n_, i_ = Rat.atom(NS[a]), Rat.atom(ivars[a])
+                    ref = ref * Rat.atom('COMB[%s|%s]' % (n_.canon(), i_.canon())) * Rat.atom('POW[%s|%s]' % (adm.canon(), i_.canon())) * Rat.atom('POW[%s|%s]' % ((Rat.const(1) - adm).canon(), (n_ - i_).canon()))
+                oki = got.equals(ref)
+                kw = {k_: mx.show(x_) for k_, x_ in sp[1].items()}
+                okret = kw.get('mask_corners') == 'mask_corners'
+                if mode == 'matrix':
+                    for r in range(D):
+                        rep.ob('R-ALG', '%s %sadmix' % (q, AX[r]), oki, 'integrand %s' % ('is phi times the binomial factors at the admixed frequencies' if oki else got.canon()[:140]), rel, fn.lineno,
+                               what='frequency in sampled population %d = sum_c admix_props[%d][c] * grid_c (grid c on axis c)' % (r + 1, r))
+                    for a in range(D):
+                        rep.ob('R-ALG', '%s factor axis %d' % (q, a + 1), oki and okr, 'index %s over range(0, %s + 1)' % (ivars[a], NS[a]) if okr else 'index %s runs over %s' % (ivars[a], mx.show(ranges.get(ivars[a]))[:40]),
+                               rel, fn.lineno, what='binomial factor of axis %d uses its admixed frequency' % (a + 1))
+                    rep.ob('R-IDX', '%s store' % q, okshape and okret, 'data[%s] in an array of shape (%s); returned as Spectrum(data, mask_corners=mask_corners): %s' % (', '.join(ivars), ', '.join(mx.show(s_) for s_ in (shape or ())), okret),
+                           rel, fn.lineno, what='entry stored at data[i_1..i_D]')
+                    rep.ob('R-IDX', '%s integration order' % q, okdx, 'spacings %s' % [mx.show(d_)[:24] for d_ in dxs], rel, fn.lineno, what='axes integrated from the last to the first')
+                else:
+                    rep.ob('R-DEF', tag, oki and okdx and okr, 'without proportions every sampled population has the frequency of its own axis' if oki else got.canon()[:140], rel, fn.lineno,
+                           what='default admix_props is the identity')
+            except mx.Undecidable as e:
+                rep.ob('R-ALG', tag, False, '%s is not recognised: %s' % (q, e), rel, fn.lineno, what='entry (i_1..i_D) of the result')
+            except AlgebraError as e:
+                rep.ob('R-ALG', tag, False, 'not evaluable: %s' % e, rel, fn.lineno, what='entry (i_1..i_D) of the result')
 
 
 def check_inbreeding(rep, prog, m):
